@@ -248,6 +248,36 @@ func ruleShrinkSafe(c *Ctx) {
 		c.check(okData, name+":reslice", k.Copy.Pos(), "Data re-sliced to the copied count", "Data is not re-sliced to the count returned by copy")
 		c.check(!offTouched, name+":Off", k.Copy.Pos(), "Off not touched by compaction", "compaction stores to Off (Off counts bytes written, not bytes retained)")
 		c.check(okRet, name+":returns-delta", k.Copy.Pos(), "returns δ", "the compaction function does not return the discarded count δ")
+		// progress: nothing is held back — a return without compaction happens only when δ = 0
+		okP := true
+		nZ := 0
+		for _, b := range fn.Blocks {
+			r, ok := b.Instrs[len(b.Instrs)-1].(*ssa.Return)
+			if !ok || b == blk || blk.Dominates(b) {
+				continue
+			}
+			nZ++
+			_ = r
+			// either nothing can be released (δ ≤ 0 here) or the request fits without compaction
+			// (g ≤ BufferSize after the capacity was adopted)
+			fits := false
+			if len(fn.Params) >= 2 {
+				for _, bs := range fi.atomsWithSuffix(".BufferSize") {
+					if fi.proveAt(fi.lin(fn.Params[1]).sub(linAtom(bs)), b, nil) {
+						fits = true
+					}
+				}
+			}
+			definedHere := true
+			if in, isIn := k.Delta.(ssa.Instruction); isIn && !(in.Block() == b || in.Block().Dominates(b)) {
+				definedHere = false
+			}
+			if !fits && !(definedHere && fi.proveAt(d, b, nil)) {
+				okP = false
+			}
+		}
+		c.check(okP && nZ > 0, name+":frees-all", k.Copy.Pos(), "compaction is skipped only when δ = min(R, len(Data)−WindowSize) is 0 or the request already fits: every drained byte outside the window is released",
+			"the compaction function can return without compacting although δ > 0 (space that a drain made reclaimable is held back): the Decoder's retry loops rely on a drain followed by compaction making progress and would spin")
 	}
 }
 
@@ -1347,8 +1377,8 @@ func mentionsValidity(v ssa.Value, depth int) bool {
 			}
 		}
 	case *ssa.Parameter:
-		// WriteMatch(m, o): the offset parameter
-		return x.Name() == "o"
+		// WriteMatch(m, o): the offset parameter (the last one)
+		return isOffsetParam(x)
 	case *ssa.Call:
 		if bi, ok := x.Call.Value.(*ssa.Builtin); ok && bi.Name() == "len" {
 			if _, p, ok := pathStr(x.Call.Args[0]); ok && lastField(p) == "Literals" {
@@ -1566,9 +1596,15 @@ func isOffsetValue(v ssa.Value) bool {
 			}
 		}
 	case *ssa.Parameter:
-		return x.Name() == "o"
+		return isOffsetParam(x)
 	}
 	return false
+}
+
+// isOffsetParam: the last parameter of DecoderBuffer.WriteMatch(m, o int).
+func isOffsetParam(x *ssa.Parameter) bool {
+	fn := x.Parent()
+	return fn != nil && fn.Name() == "WriteMatch" && len(fn.Params) == 3 && fn.Params[2] == x
 }
 
 // ---------------------------------------------------------------- R-STALELEN
@@ -2116,4 +2152,139 @@ func (c *Ctx) reachesAvoiding(fi *FuncInfo, a, b ssa.Instruction, avoid []ssa.In
 		stack = append(stack, x.Succs...)
 	}
 	return false
+}
+
+// ---------------------------------------------------------------- R-DEC-RESET / R-DEC-HEADROOM
+
+func init() {
+	reg(&Rule{ID: "R-DEC-RESET", Min: 4,
+		Doc: "DecoderBuffer.Reset and Init re-initialise every field of the buffer state that the write/read methods modify (Data emptied, R = 0, Off = 0) on every success path; Decoder.Reset resets its buffer and installs the new writer",
+		Run: ruleDecReset})
+	reg(&Rule{ID: "R-DEC-HEADROOM", Min: 1,
+		Doc: "DecoderConfig.SetDefaults chooses BufferSize ≥ 2·WindowSize when BufferSize is left zero (documented default): after a drain at least WindowSize bytes can be accepted, so every sequence up to the window size fits",
+		Run: ruleDecHeadroom})
+}
+
+func ruleDecReset(c *Ctx) {
+	db := c.decBuf()
+	if db == nil {
+		c.fail("lz.DecoderBuffer", token.NoPos, "type not found")
+		return
+	}
+	// state = fields of DecoderBuffer (not the config) that any method other than Init/Reset may write
+	state := map[string]bool{}
+	for _, fn := range c.methodsOf(db) {
+		if fn.Name() == "Init" || fn.Name() == "Reset" {
+			continue
+		}
+		for _, k := range c.mayWrite(fn) {
+			if !strings.HasPrefix(k, "p0.") || strings.Contains(k, "[*]") {
+				continue
+			}
+			f := strings.TrimPrefix(k, "p0.")
+			if strings.Contains(f, ".") || f == "DecoderConfig" {
+				continue
+			}
+			state[f] = true
+		}
+	}
+	var fields []string
+	for f := range state {
+		fields = append(fields, f)
+	}
+	sort.Strings(fields)
+	if len(fields) < 3 {
+		c.fail("lz.DecoderBuffer:state", token.NoPos, "expected the write/read methods to modify at least Data, R and Off; found %v", fields)
+	}
+	for _, name := range []string{"Reset", "Init"} {
+		fn := c.method(db, name)
+		if fn == nil {
+			c.fail("lz.(*DecoderBuffer)."+name, token.NoPos, "method not found")
+			continue
+		}
+		must := c.mustWrite(fn, nil)
+		for _, f := range fields {
+			key := fmt.Sprintf("%s:%s", fnName(fn), f)
+			if !covered(must, "p0."+f) {
+				c.fail(key, fn.Pos(), "state field %s, which the write/read methods modify, is not re-initialised on every success path of %s: a reused decoder buffer keeps its old %s (bytes of the next stream are skipped or emitted twice)", f, name, f)
+				continue
+			}
+			if f == "Data" {
+				okE, why := c.emptiedBy(fn, "", "Data")
+				c.check(okE, key, fn.Pos(), "Data emptied", "Data is not emptied: "+why)
+				continue
+			}
+			if bad := c.nonZeroStore(fn, "", f); bad != "" {
+				c.fail(key, fn.Pos(), "%s stores a non-zero value to %s (%s)", name, f, bad)
+			} else {
+				c.ok(key, fn.Pos(), "%s = 0 on every success path", f)
+			}
+		}
+	}
+	// Decoder.Reset delegates
+	if dec := c.decoder(); dec != nil {
+		if fn := c.method(dec, "Reset"); fn != nil {
+			calls := false
+			setsW := false
+			target := c.method(db, "Reset")
+			for _, b := range fn.Blocks {
+				for _, in := range b.Instrs {
+					if call, ok := in.(*ssa.Call); ok && call.Call.StaticCallee() == target && target != nil {
+						calls = true
+					}
+					if st, ok := in.(*ssa.Store); ok {
+						if f := fieldOfAddr(st.Addr); f != nil && isWriterType(f.Type()) && len(fn.Params) == 2 && st.Val == ssa.Value(fn.Params[1]) {
+							setsW = true
+						}
+					}
+				}
+			}
+			c.check(calls && setsW, fnName(fn)+":delegates", fn.Pos(), "Decoder.Reset resets the buffer and installs the new writer", "Decoder.Reset does not both reset its DecoderBuffer and install the writer argument")
+		}
+	}
+}
+
+func isWriterType(t types.Type) bool {
+	n, ok := t.(*types.Named)
+	return ok && n.Obj().Pkg() != nil && n.Obj().Pkg().Path() == "io" && n.Obj().Name() == "Writer"
+}
+
+func ruleDecHeadroom(c *Ctx) {
+	cfgT := c.namedType(c.lz, "DecoderConfig")
+	if cfgT == nil {
+		c.fail("lz.DecoderConfig", token.NoPos, "type not found")
+		return
+	}
+	fn := c.method(cfgT, "SetDefaults")
+	if fn == nil {
+		c.fail("lz.(*DecoderConfig).SetDefaults", token.NoPos, "method not found")
+		return
+	}
+	fi := c.info(fn)
+	n := 0
+	for _, b := range fn.Blocks {
+		for _, in := range b.Instrs {
+			st, ok := in.(*ssa.Store)
+			if !ok {
+				continue
+			}
+			f := fieldOfAddr(st.Addr)
+			if f == nil || f.Name() != "BufferSize" {
+				continue
+			}
+			n++
+			key := fmt.Sprintf("%s:BufferSize-default#%d", fnName(fn), n)
+			v := fi.lin(st.Val)
+			good := false
+			for _, w := range fi.atomsWithSuffix(".WindowSize") {
+				if fi.proveAt(linAtom(w).scale(2).sub(v), b, nil) {
+					good = true
+				}
+			}
+			c.check(good, key, st.Pos(), "default BufferSize ≥ 2·WindowSize", "the default BufferSize "+v.String()+" is not shown to be ≥ 2·WindowSize: with the default configuration a valid sequence of up to WindowSize bytes can be refused for good (ErrFullBuffer) once the window is full")
+		}
+	}
+	if n == 0 {
+		c.fail(fnName(fn)+":BufferSize-default", fn.Pos(), "SetDefaults does not set BufferSize")
+	}
 }
